@@ -27,3 +27,4 @@ func vfAtomicEnd()
 func vfYield()
 func vfSameObject(a, b []byte) bool
 func vfOffsetOf(a []byte) int
+func vfPrune()
